@@ -1,0 +1,10 @@
+//go:build verif
+
+// Contracts for the verification machinery in /verif (govc); only compiled with -tags verif.
+package cache
+
+//@ func (*Cache).Get
+//@   assigns internal
+
+//@ func (*Cache).Put
+//@   assigns internal
